@@ -3,10 +3,10 @@
    For a fixed material m:
      durable m d  :=  m is in the tombstone file  \/  the state file holds a
                       Revoked/Removed marker whose key has material m.
-   Every AutoTA run that starts from a durable disk and whose read faults are
-   tolerable (tombstones not "unreadable"; the state file readable unless the
-   tombstone already holds m) keeps the disk durable after EVERY prefix of its
-   file replacements and publishes no key of material m.  The run that accepts
+   Every AutoTA run that starts from a durable disk — whatever its read and
+   write faults (repaired code: an unreadable state or tombstone file fails
+   closed) — keeps the disk durable after EVERY prefix of its file
+   replacements and publishes no key of material m.  The run that accepts
    the revocation makes the disk durable as soon as one replacement lands. *)
 From Sdns Require Import Common.Base Gen.C09 C09.Model C09.Proofs_Maps.
 Open Scope N_scope.
@@ -29,9 +29,12 @@ Definition durable_tomb (d : disk) : Prop := exists tb, d_tomb d = Some tb /\ me
 Definition durable_mark (d : disk) : Prop := exists s, d_state d = Some s /\ has_marker s.
 Definition durable (d : disk) : Prop := durable_tomb d \/ durable_mark d.
 
-(* tolerable read faults for m *)
-Definition faults_ok (d : disk) (fl : faults) : Prop :=
-  f_tread fl <> TRUnreadable /\ (f_sread fl = true -> durable_tomb d).
+Lemma cfgrev_mono now cfg tombs : mem m tombs = true -> mem m (cfgrev now cfg tombs) = true.
+Proof.
+  intros H. unfold cfgrev. apply fold_left_inv; [exact H|].
+  intros t k Ht. unfold cfgrev_step. destruct (is_ksk k && is_rev k && negb (mem (k_mat k) t)); [|exact Ht].
+  apply mem_set_mono. exact Ht.
+Qed.
 
 (* ---- migrate *)
 Lemma migrate_mono ksk tombs : mem m tombs = true -> mem m (migrate ksk tombs) = true.
@@ -110,40 +113,39 @@ Proof. intros (t & a & Hl & H1 & H2). exists t, a. split; [apply lookup_in; exac
 
 Lemma prefetch_inv live cfg d now fl ksk2 tombs2 :
   prefetch tag live cfg d now fl = Some (ksk2, tombs2) ->
-  durable d -> faults_ok d fl ->
-  J ksk2 tombs2 /\ (durable_mark d -> f_sread fl = false -> has_marker ksk2).
+  durable d ->
+  J ksk2 tombs2 /\ (durable_mark d -> has_marker ksk2).
 Proof.
-  unfold prefetch. intros Hp Hd [Hnu Hsr].
-  set (ksk0 := match (if f_sread fl then None else d_state d) with Some s => s | None => seed_from_live tag now live end) in *.
-  assert (Htr : f_tread fl = TROk) by (destruct (f_tread fl); [reflexivity|discriminate|contradiction]).
-  rewrite Htr in Hp.
+  unfold prefetch. intros Hp Hd.
+  destruct (f_sread fl); [discriminate|].
+  destruct (f_tread fl); [|discriminate|discriminate].
+  set (ksk0 := match d_state d with Some s => s | None => seed_from_live tag now live end) in *.
   set (tombs0 := match d_tomb d with Some t => t | None => [] end) in *.
-  assert (Hm1 : mem m (migrate ksk0 tombs0) = true).
-  { destruct Hd as [(tb & Htb & Hmem)|(s & Hs & Hmk)].
+  assert (Hm1 : mem m (cfgrev now cfg (migrate ksk0 tombs0)) = true).
+  { apply cfgrev_mono. destruct Hd as [(tb & Htb & Hmem)|(s & Hs & Hmk)].
     - apply migrate_mono. unfold tombs0. rewrite Htb. exact Hmem.
-    - destruct (f_sread fl) eqn:Esr.
-      + destruct (Hsr eq_refl) as (tb & Htb & Hmem). apply migrate_mono. unfold tombs0. rewrite Htb. exact Hmem.
-      + apply has_marker_in in Hmk. destruct Hmk as (t & a & Hin & Hmat & Hma).
-        eapply migrate_marker; [|exact Hma|exact Hmat]. unfold ksk0. rewrite Hs. exact Hin. }
+    - apply has_marker_in in Hmk. destruct Hmk as (t & a & Hin & Hmat & Hma).
+      eapply migrate_marker; [|exact Hma|exact Hmat]. unfold ksk0. rewrite Hs. exact Hin. }
   inversion Hp as [Hp']. clear Hp.
-  pose proof (merge_J now cfg (precedence ksk0 (migrate ksk0 tombs0)) (migrate ksk0 tombs0)) as HJ.
+  set (tombs1 := cfgrev now cfg (migrate ksk0 tombs0)) in *.
+  pose proof (merge_J now cfg (precedence ksk0 tombs1) tombs1) as HJ.
   rewrite Hp' in HJ. cbn in HJ. split.
   - apply HJ. split; [exact Hm1|apply prec_inv_B; exact Hm1].
-  - intros (s & Hs & Hmk) Esr.
-    pose proof (merge_marker now cfg (precedence ksk0 (migrate ksk0 tombs0)) (migrate ksk0 tombs0)) as HM.
-    rewrite Hp' in HM. cbn in HM. apply HM. apply prec_marker. unfold ksk0. rewrite Esr, Hs. exact Hmk.
+  - intros (s & Hs & Hmk).
+    pose proof (merge_marker now cfg (precedence ksk0 tombs1) tombs1) as HM.
+    rewrite Hp' in HM. cbn in HM. apply HM. apply prec_marker. unfold ksk0. rewrite Hs. exact Hmk.
 Qed.
 
 (* ---- the per-tag loop *)
 Lemma process_one_J now ro fm staged s t : J (p_ksk s) (p_tombs s) ->
-  J (p_ksk (process_one now ro fm staged s t)) (p_tombs (process_one now ro fm staged s t)).
+  J (p_ksk (process_one tag now ro fm staged s t)) (p_tombs (process_one tag now ro fm staged s t)).
 Proof.
   intros [Ht Hb]. unfold process_one.
   destruct (lookup t fm) as [k|]; [|split; assumption].
   destruct (mem (k_mat k) (p_tombs s)) eqn:Em; [split; assumption|].
   destruct (ident_existing (p_ksk s) t k); [split; assumption|].
   destruct (is_rev k).
-  - destruct (lookup (sub16 t go_revoke_tag_delta) (p_ksk s)) as [old|]; [|split; assumption].
+  - destruct (lookup (tag (unrev k)) (p_ksk s)) as [old|]; [|split; assumption].
     destruct (is_trusted_st old && same_except_revoke (ta_key old) k && staged_ok staged t); [|split; assumption].
     cbn. split; [apply mem_set_mono; exact Ht|].
     intros x a Hin Hmat. apply in_set in Hin. destruct Hin as [[-> ->]|[Hin _]]; [reflexivity|eapply Hb; eassumption].
@@ -155,20 +157,20 @@ Proof.
 Qed.
 
 Lemma process_J now ro fm staged tags s : J (p_ksk s) (p_tombs s) ->
-  J (p_ksk (process now ro fm staged tags s)) (p_tombs (process now ro fm staged tags s)).
+  J (p_ksk (process tag now ro fm staged tags s)) (p_tombs (process tag now ro fm staged tags s)).
 Proof.
   intros H. unfold process. apply (fold_left_inv (fun s => J (p_ksk s) (p_tombs s))); [exact H|].
   intros s' t' Hs. apply process_one_J. exact Hs.
 Qed.
 
-Lemma process_one_marker now ro fm staged s t : has_marker (p_ksk s) -> has_marker (p_ksk (process_one now ro fm staged s t)).
+Lemma process_one_marker now ro fm staged s t : has_marker (p_ksk s) -> has_marker (p_ksk (process_one tag now ro fm staged s t)).
 Proof.
   intros (t0 & a & Hl & Hmat & Hm). unfold process_one.
   destruct (lookup t fm) as [k|]; [|exists t0, a; auto].
   destruct (mem (k_mat k) (p_tombs s)); [exists t0, a; auto|].
   destruct (ident_existing (p_ksk s) t k); [exists t0, a; auto|].
   destruct (is_rev k).
-  - destruct (lookup (sub16 t go_revoke_tag_delta) (p_ksk s)) as [old|] eqn:Eo; [|exists t0, a; auto].
+  - destruct (lookup (tag (unrev k)) (p_ksk s)) as [old|] eqn:Eo; [|exists t0, a; auto].
     destruct (is_trusted_st old && same_except_revoke (ta_key old) k && staged_ok staged t) eqn:Ec; [|exists t0, a; auto].
     cbn. exists t0, a. split; [|auto]. rewrite lookup_set_neq; [exact Hl|].
     intros E. rewrite E in Eo. rewrite Hl in Eo. inversion Eo; subst old.
@@ -179,7 +181,7 @@ Proof.
     exists t0, a. split; [|auto]. rewrite lookup_set_neq; [exact Hl|]. intros E. rewrite E in El. congruence.
 Qed.
 
-Lemma process_marker now ro fm staged tags s : has_marker (p_ksk s) -> has_marker (p_ksk (process now ro fm staged tags s)).
+Lemma process_marker now ro fm staged tags s : has_marker (p_ksk s) -> has_marker (p_ksk (process tag now ro fm staged tags s)).
 Proof.
   intros H. unfold process. apply (fold_left_inv (fun s => has_marker (p_ksk s))); [exact H|].
   intros s' t' Hs. apply process_one_marker. exact Hs.
@@ -189,47 +191,47 @@ Qed.
 Definition Q (s : pst) : Prop := In m (p_revs s) -> mem m (p_tombs s) = true /\ has_marker (p_ksk s).
 
 Lemma process_one_tomb_mono now ro fm staged s t x :
-  mem x (p_tombs s) = true -> mem x (p_tombs (process_one now ro fm staged s t)) = true.
+  mem x (p_tombs s) = true -> mem x (p_tombs (process_one tag now ro fm staged s t)) = true.
 Proof.
   intros Ha. unfold process_one.
   destruct (lookup t fm) as [k|]; [|exact Ha].
   destruct (mem (k_mat k) (p_tombs s)); [exact Ha|].
   destruct (ident_existing (p_ksk s) t k); [exact Ha|].
   destruct (is_rev k).
-  - destruct (lookup (sub16 t go_revoke_tag_delta) (p_ksk s)) as [old|]; [|exact Ha].
+  - destruct (lookup (tag (unrev k)) (p_ksk s)) as [old|]; [|exact Ha].
     destruct (is_trusted_st old && same_except_revoke (ta_key old) k && staged_ok staged t); [|exact Ha].
     cbn. apply mem_set_mono. exact Ha.
   - destruct ro; [exact Ha|]. destruct (lookup t (p_ksk s)); exact Ha.
 Qed.
 
 Lemma process_one_revs now ro fm staged s t :
-  In m (p_revs (process_one now ro fm staged s t)) ->
+  In m (p_revs (process_one tag now ro fm staged s t)) ->
   In m (p_revs s) \/
-  (mem m (p_tombs (process_one now ro fm staged s t)) = true /\ has_marker (p_ksk (process_one now ro fm staged s t))).
+  (mem m (p_tombs (process_one tag now ro fm staged s t)) = true /\ has_marker (p_ksk (process_one tag now ro fm staged s t))).
 Proof.
   unfold process_one.
   destruct (lookup t fm) as [k|]; [|intros; left; auto].
   destruct (mem (k_mat k) (p_tombs s)); [intros; left; auto|].
   destruct (ident_existing (p_ksk s) t k); [intros; left; auto|].
   destruct (is_rev k).
-  - destruct (lookup (sub16 t go_revoke_tag_delta) (p_ksk s)) as [old|] eqn:Eo; [|intros; left; auto].
+  - destruct (lookup (tag (unrev k)) (p_ksk s)) as [old|] eqn:Eo; [|intros; left; auto].
     destruct (is_trusted_st old && same_except_revoke (ta_key old) k && staged_ok staged t) eqn:Ec; [|intros; left; auto].
     cbn. intros [E|Hin]; [|left; exact Hin].
     right. split; [rewrite mem_set, E, N.eqb_refl; reflexivity|].
-    exists (sub16 t go_revoke_tag_delta), (mk_ta (ta_key old) SRevoked now).
+    exists (tag (unrev k)), (mk_ta (ta_key old) SRevoked now).
     split; [apply lookup_set_eq|]. split; [|reflexivity].
     apply andb_true_iff in Ec. destruct Ec as [Ec _]. apply andb_true_iff in Ec. destruct Ec as [_ Ec].
     apply same_except_revoke_mat in Ec. unfold ta_mat. cbn. congruence.
   - destruct ro; [intros; left; auto|]. destruct (lookup t (p_ksk s)); intros; left; auto.
 Qed.
 
-Lemma process_one_Q now ro fm staged s t : Q s -> Q (process_one now ro fm staged s t).
+Lemma process_one_Q now ro fm staged s t : Q s -> Q (process_one tag now ro fm staged s t).
 Proof.
   intros HQ Hin. apply process_one_revs in Hin. destruct Hin as [Hin|H]; [|exact H].
   destruct (HQ Hin) as [Ha Hb]. split; [apply process_one_tomb_mono; exact Ha|apply process_one_marker; exact Hb].
 Qed.
 
-Lemma process_Q now ro fm staged tags s : Q s -> Q (process now ro fm staged tags s).
+Lemma process_Q now ro fm staged tags s : Q s -> Q (process tag now ro fm staged tags s).
 Proof.
   intros H. unfold process. apply (fold_left_inv Q); [exact H|].
   intros s' t' Hs. apply process_one_Q. exact Hs.
@@ -241,7 +243,7 @@ Lemma keyrem_one_spec now fm t a x b :
   x = t /\ ta_key b = ta_key a /\ (is_marker a = true -> b = a).
 Proof.
   unfold keyrem_one, is_marker. cbn [fst snd]. destruct a as [k s0 fs]. cbn [ta_st ta_key ta_fs].
-  destruct (lookup t fm); destruct s0; cbn [ta_st ta_key ta_fs];
+  destruct (fm_has fm t _); destruct s0; cbn [ta_st ta_key ta_fs];
     repeat match goal with |- context [if ?c then _ else _] => destruct c end;
     cbn; intros H; repeat (destruct H as [H|H]; [inversion H; subst; repeat split; intros; try reflexivity; try discriminate|]); try destruct H.
 Qed.
@@ -249,7 +251,7 @@ Qed.
 Lemma keyrem_one_marker now fm t a : is_marker a = true -> keyrem_one now fm (t, a) = [(t, a)].
 Proof.
   unfold keyrem_one, is_marker. cbn [fst snd]. destruct a as [k s0 fs]. cbn [ta_st ta_key ta_fs].
-  destruct s0; try discriminate; intros _; destruct (lookup t fm); reflexivity.
+  destruct s0; try discriminate; intros _; destruct (fm_has fm t _); reflexivity.
 Qed.
 
 Lemma keyrem_inv_B now fm ksk : inv_B ksk -> inv_B (keyrem now fm ksk).
@@ -347,14 +349,14 @@ Proof.
 Qed.
 
 Lemma run_keeps live cfg d now fe fl :
-  durable d -> faults_ok d fl ->
+  durable d ->
   (forall k, In k (r_live (autota tag live cfg d now fe fl)) -> k_mat k <> m) /\
   (forall n, durable (apply_writes d (firstn n (r_writes (autota tag live cfg d now fe fl))))).
 Proof.
-  intros Hd Hf. unfold autota.
+  intros Hd. unfold autota.
   destruct (prefetch tag live cfg d now fl) as [[ksk2 tombs2]|] eqn:Ep.
   2:{ split; [intros k []|]. intros n. cbn. rewrite firstn_nil. exact Hd. }
-  destruct (prefetch_inv _ _ _ _ _ _ _ Ep Hd Hf) as [[Ht Hb] Hmk].
+  destruct (prefetch_inv _ _ _ _ _ _ _ Ep Hd) as [[Ht Hb] Hmk].
   assert (Hl1 : forall k, In k (if is_nil live then live else trusted_keys ksk2) -> k_mat k <> m).
   { intros k. destruct live; cbn; [intros []|]. apply inv_B_trusted. exact Hb. }
   assert (Hearly : forall o, (forall k, In k (r_live (mk_result (if is_nil live then live else trusted_keys ksk2) d [] o [])) -> k_mat k <> m) /\
@@ -365,7 +367,7 @@ Proof.
     let fm := fetched_map tag keys in
     let tags := sort_tags (map fst fm) in
     let staged := stage tag ksk2 tombs2 sigs fm tags in
-    let s3 := process now ro fm staged tags (mk_pst ksk2 tombs2 false []) in
+    let s3 := process tag now ro fm staged tags (mk_pst ksk2 tombs2 false []) in
     let s4 := if ro then s3 else mk_pst (keyrem now fm (p_ksk s3)) (p_tombs s3) (p_newrev s3) (p_revs s3) in
     (forall k, In k (r_live (tail (if is_nil live then live else trusted_keys ksk2) d fl s4)) -> k_mat k <> m) /\
     (forall n, durable (apply_writes d (firstn n (r_writes (tail (if is_nil live then live else trusted_keys ksk2) d fl s4)))))).
@@ -377,8 +379,7 @@ Proof.
     - intros k. apply tail_live; [apply HJ4|exact Hl1].
     - intros n. apply tail_durable_keep; [exact Hd|apply HJ4|].
       intros _. destruct Hd as [Hdt|Hdm]; [left; exact Hdt|].
-      destruct (f_sread fl) eqn:Esr; [left; apply (proj2 Hf); exact Esr|].
-      right. assert (H3 : has_marker (p_ksk s3)) by (apply process_marker; apply Hmk; [exact Hdm|reflexivity]).
+      right. assert (H3 : has_marker (p_ksk s3)) by (apply process_marker; apply Hmk; exact Hdm).
       unfold s4. destruct ro; [exact H3|]. cbn. apply keyrem_marker. exact H3. }
   destruct (authenticate tag (trusted_keys ksk2) keys sigs); [apply Hearly|apply (Hmain false)|apply (Hmain true)].
 Qed.
@@ -395,7 +396,7 @@ Proof.
     let fm := fetched_map tag keys in
     let tags := sort_tags (map fst fm) in
     let staged := stage tag ksk2 tombs2 sigs fm tags in
-    let s3 := process now ro fm staged tags (mk_pst ksk2 tombs2 false []) in
+    let s3 := process tag now ro fm staged tags (mk_pst ksk2 tombs2 false []) in
     let s4 := if ro then s3 else mk_pst (keyrem now fm (p_ksk s3)) (p_tombs s3) (p_newrev s3) (p_revs s3) in
     In m (r_revoked (tail (if is_nil live then live else trusted_keys ksk2) d fl s4)) ->
     firstn n (r_writes (tail (if is_nil live then live else trusted_keys ksk2) d fl s4)) <> [] ->
@@ -411,83 +412,73 @@ Proof.
 Qed.
 
 (* ---- histories *)
-Definition ev_ok (s : sys) (e : event) : Prop :=
-  match e with
-  | ERun _ _ fl => faults_ok (s_disk s) fl
-  | ECrash _ _ fl _ _ => faults_ok (s_disk s) fl
-  | ERestart _ => True
-  end.
-Fixpoint hist_ok (s : sys) (h : list event) : Prop :=
-  match h with
-  | [] => True
-  | e :: r => ev_ok s e /\ hist_ok (step tag s e) r
-  end.
-
-Lemma step_durable s e : durable (s_disk s) -> ev_ok s e -> durable (s_disk (step tag s e)).
+Lemma step_durable s e : durable (s_disk s) -> durable (s_disk (step tag s e)).
 Proof.
-  intros Hd He. destruct e as [now fe fl|now fe fl k cfg'|cfg']; cbn in *.
+  intros Hd. destruct e as [now fe fl|now fe fl k cfg' tr|cfg' tr]; cbn in *.
   - unfold run_of. rewrite r_disk_writes.
-    destruct (run_keeps (s_live s) (s_cfg s) (s_disk s) now fe fl Hd He) as [_ H].
+    destruct (run_keeps (s_live s) (s_cfg s) (s_disk s) now fe fl Hd) as [_ H].
     specialize (H (length (r_writes (autota tag (s_live s) (s_cfg s) (s_disk s) now fe fl)))).
     rewrite firstn_all in H. exact H.
   - unfold run_of. apply run_keeps; assumption.
   - exact Hd.
 Qed.
 
-Lemma exec_durable h : forall s, durable (s_disk s) -> hist_ok s h -> durable (s_disk (exec tag s h)).
+Lemma exec_durable h : forall s, durable (s_disk s) -> durable (s_disk (exec tag s h)).
 Proof.
-  induction h as [|e h IH]; intros s Hd Hok; [exact Hd|]. cbn in *. destruct Hok as [He Hok].
-  apply IH; [apply step_durable; assumption|exact Hok].
-Qed.
-
-Lemma hist_ok_app h1 h2 s : hist_ok s (h1 ++ h2) -> hist_ok s h1 /\ hist_ok (exec tag s h1) h2.
-Proof.
-  revert s. induction h1 as [|e h1 IH]; intros s H; cbn in *; [split; [exact I|exact H]|].
-  destruct H as [He H]. destruct (IH _ H) as [H1 H2]. split; [split; assumption|exact H2].
+  induction h as [|e h IH]; intros s Hd; [exact Hd|]. cbn in *.
+  apply IH. apply step_durable. exact Hd.
 Qed.
 
 Lemma exec_app h1 h2 s : exec tag s (h1 ++ h2) = exec tag (exec tag s h1) h2.
 Proof. unfold exec. apply fold_left_app. Qed.
 
-(* after any later COMPLETED run no key of material m is published; directly after a
-   restart the live set is the configuration (the restart window) *)
-Lemma later_runs_exclude s1 h now fe fl key :
-  durable (s_disk s1) -> hist_ok s1 (h ++ [ERun now fe fl]) ->
-  In key (s_live (exec tag s1 (h ++ [ERun now fe fl]))) -> k_mat key <> m.
+(* NewResolver: a key whose material is in the tombstone file is not in the start-up trust set *)
+Lemma restart_live_excludes cfg d tr key : durable_tomb d -> In key (restart_live cfg d tr) -> k_mat key <> m.
 Proof.
-  intros Hd Hok. apply hist_ok_app in Hok. destruct Hok as [H1 H2]. cbn in H2. destruct H2 as [Hf _].
-  rewrite exec_app. cbn. unfold run_of. apply run_keeps; [apply exec_durable; assumption|exact Hf].
+  intros (tb & Htb & Hmem) Hin E. unfold restart_live in Hin. destruct tr; [|destruct Hin|destruct Hin].
+  apply filter_In in Hin. destruct Hin as [_ Hf]. rewrite Htb, E, Hmem in Hf. rewrite andb_false_r in Hf. discriminate.
 Qed.
 
-Lemma later_disk_durable s1 h : durable (s_disk s1) -> hist_ok s1 h -> durable (s_disk (exec tag s1 h)).
-Proof. intros. apply exec_durable; assumption. Qed.
+Lemma restart_live_sub cfg d tr key : In key (restart_live cfg d tr) -> In key cfg.
+Proof. unfold restart_live. destruct tr; [|intros []|intros []]. intros H. apply filter_In in H. apply H. Qed.
 
 End Rev.
 
-(* revocation_permanent (partial): see Properties.v for the full statement and the gap *)
-Lemma revocation_permanent_partial_lemma :
+(* revocation_permanent: see Properties.v *)
+Lemma revocation_permanent_lemma :
   forall (tag : key -> N) (m : N) (s : sys) now fe fl,
     (* some run, from ANY state, accepts the revocation of material m ... *)
     In m (r_revoked (run_of tag s now fe fl)) ->
     forall s1,
     (* ... and either completes with at least one file replaced, or the process dies after k >= 1 replacements *)
     ((s1 = step tag s (ERun now fe fl) /\ r_writes (run_of tag s now fe fl) <> []) \/
-     (exists k cfg', s1 = step tag s (ECrash now fe fl k cfg') /\ firstn k (r_writes (run_of tag s now fe fl)) <> [])) ->
-    (* then for every continuation (runs with any responses, clocks, write faults, crashes at any
-       prefix, restarts with any configuration) whose read faults are tolerable for m *)
-    forall h, hist_ok tag m s1 h ->
-      durable m (s_disk (exec tag s1 h)) /\
-      (forall h' now' fe' fl' key, h = h' ++ [ERun now' fe' fl'] ->
-         In key (s_live (exec tag s1 h)) -> k_mat key <> m).
+     (exists k cfg' tr, s1 = step tag s (ECrash now fe fl k cfg' tr) /\ firstn k (r_writes (run_of tag s now fe fl)) <> [])) ->
+    (* then for EVERY continuation: runs with any responses, clocks, read and write faults, crashes at
+       any prefix, restarts with any configuration and any start-up read fault *)
+    forall h e,
+      let sb := exec tag s1 h in            (* state before the last event *)
+      let s' := step tag sb e in            (* state after it *)
+      durable m (s_disk s') /\
+      (forall key, In key (s_live s') -> k_mat key = m ->
+         (* the only way back into the live set: a (re)start while the tombstone file does not hold m
+            (the record is still only the StateRevoked marker) with m's key in the configuration *)
+         (exists cfg' tr, (e = ERestart cfg' tr \/ exists now' fe' fl' k, e = ECrash now' fe' fl' k cfg' tr) /\
+                          In key cfg' /\ ~ durable_tomb m (s_disk s'))).
 Proof.
-  intros tag m s now fe fl Hacc s1 Hs1 h Hok.
+  intros tag m s now fe fl Hacc s1 Hs1 h e sb s'.
   assert (Hd1 : durable m (s_disk s1)).
-  { destruct Hs1 as [[-> Hne]|(k & cfg' & -> & Hne)]; cbn.
+  { destruct Hs1 as [[-> Hne]|(k & cfg' & tr & -> & Hne)]; cbn.
     - unfold run_of in *. rewrite r_disk_writes.
       pose proof (run_accepts tag m (s_live s) (s_cfg s) (s_disk s) now fe fl
                     (length (r_writes (autota tag (s_live s) (s_cfg s) (s_disk s) now fe fl))) Hacc) as H.
       rewrite firstn_all in H. apply H. exact Hne.
     - unfold run_of in *. apply run_accepts; assumption. }
-  split; [apply exec_durable; assumption|].
-  intros h' now' fe' fl' key -> Hin. eapply later_runs_exclude; eassumption.
+  assert (Hdb : durable m (s_disk sb)) by (apply exec_durable; exact Hd1).
+  split; [apply step_durable; exact Hdb|].
+  intros key Hin Hm. unfold s' in *. destruct e as [now' fe' fl'|now' fe' fl' k cfg' tr|cfg' tr]; cbn in Hin.
+  - exfalso. unfold run_of in Hin. eapply (proj1 (run_keeps tag m _ _ _ now' fe' fl' Hdb)); eassumption.
+  - exists cfg', tr. split; [right; eauto|]. split; [eapply restart_live_sub; exact Hin|].
+    intros Ht. eapply restart_live_excludes; [exact Ht|exact Hin|exact Hm].
+  - exists cfg', tr. split; [left; reflexivity|]. split; [eapply restart_live_sub; exact Hin|].
+    intros Ht. eapply restart_live_excludes; [exact Ht|exact Hin|exact Hm].
 Qed.
